@@ -47,6 +47,17 @@ def partitions(tier, seed):
             for warn in (False, True):
                 parts.append(sp.M(PROP, "C02", sp.rsp_key(), "%s-%s%s" % (sp.cc_name(cc), label, "-warn" if warn else ""),
                                   data, free, budget=40, cfg={"cc": cc, "enc": enc, "warn": warn}))
+    # streams: one and two pairs (a bad-tag answer, which starts with a 0x00 byte, in the middle)
+    chosen = list(ccs)
+    for c1, c2 in list(zip(chosen, chosen[1:] + chosen[:1]))[: (8 if quick else len(chosen))]:
+        cm1 = G.commands(c1, minimal=True)[0][1]
+        r1 = {l: d for l, e, d in G.responses(c1, minimal=False)}
+        cm2 = G.commands(c2, minimal=True)[-1][1]
+        r2 = [r for r in G.responses(c2, minimal=True) if r[0] == "sess1"][0][2]
+        for label, first in (("ok", r1["nosess"]), ("badtag", r1["fail-badtag"])):
+            stream = cm1 + first + cm2 + r2
+            parts.append(sp.M(PROP, "C02", sp.stream_key(), "%s+%s-stream-%s" % (sp.cc_name(c1), sp.cc_name(c2), label), stream, [], budget=30))
+            parts.append(sp.M(PROP, "C02", sp.stream_key(), "%s+%s-stream-%s-warn" % (sp.cc_name(c1), sp.cc_name(c2), label), stream, [], budget=30, cfg={"warn": True}))
     # size-perturbed variants: whatever strict decoding (or warn mode with value warnings only) accepts among
     # them must still re-encode to the input
     from .c13 import size_variants
